@@ -99,6 +99,17 @@ Check (C09_flush_total : forall f ms, f_max f < two32 -> run_flush f ms <> None)
 Print Assumptions C09_flush_total.
 Check (C09_flush_spec_ok_on_model : forall f ms, spec_flush_ok f ms (run_flush f ms) = true).
 Print Assumptions C09_flush_spec_ok_on_model.
+Check (C09_e2e_name_is_prefixed : forall f ms ps,
+  f_max f < two32 -> forallb (fun m => values_nonempty (expected_op f m)) ms = true ->
+  run_flush f ms = Some ps ->
+  forall p, In p ps ->
+  exists m ch, In m ms /\ ch <> [] /\
+    p = frame (f_lp f) (render (expect (metric_cfg f m) (expected_op f m) ch)) /\
+    m_name (expect (metric_cfg f m) (expected_op f m) ch) = e2e_name (f_prefix f) (metric_name m) /\
+    (wf_msg (expect (metric_cfg f m) (expected_op f m) ch) = true ->
+     exists M, parse_msg (render (expect (metric_cfg f m) (expected_op f m) ch)) = Some M /\
+               m_name M = e2e_name (f_prefix f) (metric_name m))).
+Print Assumptions C09_e2e_name_is_prefixed.
 Check (C09_xspec_ok_on_model : forall c, XExec.spec_ok c (XExec.run_case c) = true).
 Print Assumptions C09_xspec_ok_on_model.
 Check (C09_display_refuted_before_fix : exists ops, XExec.spec_ok (XExec.XB ops) (XExec.OB (run_builder false bdefault ops)) = false).
